@@ -63,15 +63,20 @@ def corridorWF : Corridor → Bool
     caller, nothing is assumed about this function -/
 def natSqrt (n : Nat) : Nat := Nat.sqrt n
 
-/-- lower and upper bounds of √q with 40 binary digits after the point, verified by squaring (if the verification
-    fails the bounds degrade to 0 and q+1, which are always valid for q ≥ 0) -/
+/-- 2^k as a rational, k any integer -/
+def pow2 (k : Int) : Rat := if 0 ≤ k then ((2 ^ k.toNat : Nat) : Rat) else 1 / ((2 ^ (-k).toNat : Nat) : Rat)
+
+/-- lower and upper bounds of √q with about 40 significant binary digits whatever the magnitude of q (q is first scaled by a
+    power of 4 so that its integer part has ~80 bits), verified by squaring (if the verification fails the bounds degrade to
+    0 and q+1, which are always valid for q ≥ 0) -/
 def sqrtBounds (q : Rat) : Rat × Rat :=
   if q ≤ 0 then (0, 0) else
-  let scale : Nat := 2 ^ 40
-  let n : Nat := (q * (scale * scale : Nat)).floor.toNat
+  let e : Int := (Nat.log2 q.den : Int) - (Nat.log2 q.num.toNat : Int)     -- ≈ −log₂ q
+  let k : Int := (80 + e) / 2
+  let n : Nat := (q * pow2 (2 * k)).floor.toNat
   let r := natSqrt n
-  let lo : Rat := (r : Rat) / scale
-  let hi : Rat := ((r + 2 : Nat) : Rat) / scale
+  let lo : Rat := (r : Rat) / pow2 k
+  let hi : Rat := ((r + 2 : Nat) : Rat) / pow2 k
   let lo' := if lo * lo ≤ q then lo else 0
   let hi' := if q ≤ hi * hi then hi else q + 1
   (lo', hi')
